@@ -31,6 +31,8 @@ class Registry:
         self.constants = {}
         self.external_models = {}  # function name -> callable(eng, st, node, args, kwargs)
         self.callee_map = {}       # (caller qualname or "*", call name) -> callee qualname
+        self.client_lemmas = {}    # qualname -> source text of a client function of contracts (verified modularly: a lemma over the callees' contracts)
+        self.lemma_canaries = []   # (name, callable() -> (hyp, {goal name: false statement})): must NOT be discharged
         self.lemmas = []           # (name, props, callable() -> (assumptions list, goal)) -- L obligations over contracts
         self.canaries = []         # (name, callable(registry) -> Contract variant that must be refuted, clause name)
         self.named_sorts = {}
